@@ -948,6 +948,15 @@ func c21Groups() (groups []c21Group, rule string) {
 								}
 							}
 							fam = append(fam, a)
+							// ... and the same with the LAST voter equivocating in the prevote stage (p1 and p2): a
+							// prevote equivocator must not gain weight in the precommit tally (added after a seeded
+							// change that counted prevote equivocators as precommit equivocators was missed)
+							e := make(c21Assign, n)
+							for v := range e {
+								e[v] = c21Beh{1, p1, 0}
+							}
+							e[n-1] = c21Beh{2, p1, p2}
+							fam = append(fam, e)
 						}
 					}
 				}
